@@ -20,7 +20,10 @@ import time
 VERIF = os.path.dirname(os.path.dirname(os.path.abspath(__file__)))
 REPO = os.environ.get("VERIF_REPO", "/repo")
 LEAN = os.path.join(VERIF, "lean")
-BUILD = os.path.join(VERIF, ".build")
+# one scratch build tree per repository path (VERIF_REPO lets a mutation test run against a
+# scratch worktree without touching /repo)
+BUILD = os.path.join(VERIF, ".build") if REPO == "/repo" else os.path.join(
+    VERIF, ".build", "alt_" + hashlib.sha256(REPO.encode()).hexdigest()[:8])
 BIN = os.path.join(BUILD, "bin")
 FULL = os.path.join(BUILD, "full")
 GUARD = "CMACIONIZE_VERIF"
